@@ -64,6 +64,13 @@ add('C19', 'exploration',
     'Random queries from the language-neutral vocabulary rendered to JavaScript (select/where/order/distinct/top/limit/aggregates/joins/update/except/unnest, plus failing queries) are executed by rbql-js through the node driver and compared with the reference interpreter of C01-C05/C07 on the same structured query: result table, header, error class and record number, and caller arrays unchanged.',
     TRUST + ' node v20 on PATH.', 'property-based testing (Hypothesis) of rbql-js against the reference interpreter, through a node batch driver', 'DESIGN.md §2 C19')
 
+add('C14', 'exploration',
+    'Poisoned records at every position x every evaluating clause (incl. a WHERE that hides the first poison) must yield RbqlRuntimeError naming the first offending record (and field); a catalogue of 30 text-level mistakes over random tables / keyword spellings must yield a parsing-class error before any write reaches the writer; IO anomalies must yield RbqlIOHandlingError; the warning set of random CSV inputs / queries / output dialects must equal the anomaly set computed by reference predicates.',
+    TRUST, 'property-based testing (Hypothesis) + enumeration of poison positions; expected error class/number and exact warning sets from reference predicates', 'DESIGN.md §2 C14')
+add('C15', 'fault_enumeration',
+    'Every stream-write index (text sink) and every byte capacity (utf-8 / latin-1 raw sinks) at which the pipe breaks x 12 query shapes; every byte position of an invalid byte x 9 chunk sizes (input and join file); /proc/self/fd before/after every success / parsing / runtime / IO-error scenario of query_csv and query_sqlite_to_csv; a user writer refusing at every write index under 16 shapes; the real CLI piped into head -c N.',
+    TRUST + ' Fault injection through harness-owned streams / writers; /proc/self/fd as the fd oracle.', 'fault injection at every write index / byte position / refusal index, with prefix, pull-bound, fd-set and writer-protocol oracles', 'DESIGN.md §2 C15')
+
 NOT_APPLICABLE = []
 ALL = ['C%02d' % i for i in range(1, 21)]
 PENDING_REASON = 'check not built yet in this revision of /verif (planned, see DESIGN.md); not claimed until it exists and is quiet on the unchanged tree'
